@@ -451,6 +451,8 @@ func checkC04(c *Check) {
 		c.Hold("R5", a[1]+"."+a[2], r.FI.Decl.Pos(), msg == "", msg)
 	}
 
+	c04GroupsCopied(c)
+
 	// ---- R4 exclusivity
 	c.Rule("R4", "AddRcpt: a recipient is handed only to the targets of the block selected for that very address, after the block's reject reply was honoured", 2)
 	if r := c.need("R4", pipelineRel, "msgpipelineDelivery", "AddRcpt"); r != nil {
@@ -568,4 +570,103 @@ func checkC04(c *Check) {
 			c.SawFunc(f)
 		}
 	}
+}
+
+// R5b: a `modify` / `check` directive may name a group declared once at the top level (`modify &shared`): the parser
+// then returns the registered instance's own slice. A block that merges such a group takes its ELEMENTS; a block that
+// keeps the slice itself shares storage with every other block that names the group – its next directive appends in
+// place and overwrites the other block's rule: recipients are rewritten and routed by a rule of a different scope.
+func c04GroupsCopied(c *Check) {
+	p := c.P
+	c.Rule("R5b", "configuration: a check / modifier group obtained from a directive is merged into a block element by element (append(dst, group...)); the slice itself is never stored in the block, assigned or handed on (a named group is shared by all blocks that reference it)", 4)
+	pk := p.Pkg(pipelineRel)
+	if pk == nil {
+		c.Fail("R5b", "package", token.NoPos, "anchor unresolved")
+		return
+	}
+	parse := calling("~/"+pipelineRel+".parseChecksGroup", "~/"+pipelineRel+".parseModifiersGroup")
+	n := 0
+	p.AllFuncs([]*packagesPkg{pk}, func(fi *FuncInfo) {
+		info := fi.Info()
+		body := fi.Decl.Body
+		ast.Inspect(body, func(x ast.Node) bool {
+			as, ok := x.(*ast.AssignStmt)
+			if !ok || len(as.Rhs) != 1 || len(as.Lhs) != 2 {
+				return true
+			}
+			call, ok := ast.Unparen(as.Rhs[0]).(*ast.CallExpr)
+			if !ok || !parse(info, call) {
+				return true
+			}
+			g := objOf(info, as.Lhs[0])
+			if g == nil {
+				return true
+			}
+			n++
+			c.SawFunc(fi.Name())
+			msg := ""
+			var stack []ast.Node
+			ast.Inspect(body, func(y ast.Node) bool {
+				if y == nil {
+					stack = stack[:len(stack)-1]
+					return true
+				}
+				stack = append(stack, y)
+				id, isID := y.(*ast.Ident)
+				if !isID || info.Uses[id] != g {
+					return true
+				}
+				// the use as an expression: g, or g.<slice field>
+				var use ast.Expr = id
+				k := len(stack) - 2
+				if k >= 0 {
+					if sel, isSel := stack[k].(*ast.SelectorExpr); isSel && sel.X == ast.Expr(id) {
+						use = sel
+						k--
+					}
+				}
+				okUse := false
+				if k >= 0 {
+					switch pn := stack[k].(type) {
+					case *ast.CallExpr:
+						if fid, isF := pn.Fun.(*ast.Ident); isF {
+							switch fid.Name {
+							case "len", "cap":
+								okUse = true
+							case "append":
+								// spread as the last argument, not the destination
+								if pn.Ellipsis.IsValid() && len(pn.Args) >= 2 && pn.Args[len(pn.Args)-1] == use && pn.Args[0] != use {
+									okUse = true
+								}
+							}
+						}
+					case *ast.RangeStmt:
+						okUse = pn.X == use
+					case *ast.IndexExpr:
+						okUse = pn.X == use
+					case *ast.SelectorExpr:
+						// a scalar field or a method of the group other than its element slice
+						if tv, has := info.Types[pn]; has {
+							if _, isSlice := tv.Type.Underlying().(*types.Slice); !isSlice {
+								okUse = true
+							}
+						}
+					}
+				}
+				if !okUse {
+					msg = "line " + itoa(p.Fset.Position(id.Pos()).Line) + ": the group returned by " + methodNameOrFun(call) + " is kept as it is (" + exprStr(use) + " is assigned, stored or handed on instead of being spread into append): for `&name` references that is the registered group's own slice, and a later directive of this block appends into storage every other block referencing the group also uses – another scope's rewrite / check rule ends up in this block or is overwritten"
+				}
+				return true
+			})
+			c.Hold("R5b", refName(fi.Obj)+":group"+itoa(n), call.Pos(), msg == "", msg)
+			return true
+		})
+	})
+}
+
+func methodNameOrFun(call *ast.CallExpr) string {
+	if m := methodName(call); m != "" {
+		return m
+	}
+	return exprStr(call.Fun)
 }
